@@ -73,6 +73,8 @@ def race_cases(tier):
 def run(tier, seed, replay=None):
     rep = Report("C15", tier, seed)
     proof_stage(rep, "C15")
+    # tie by translation (T5): finalize's observer and subscription bodies parsed from /repo/src are the machine's steps
+    proof_stage(rep, "C15src", limit=400)
     if not build_stage(rep):
         return rep.finish()
     cases = load_replay_case(replay) if replay else hot_cases(tier) + cold_cases(tier) + disconnected_cases(tier) + twice_cases(tier) + race_cases(tier) + ileave2.cases(tier, Rng(seed), kinds=("fin",))
